@@ -152,6 +152,7 @@ class Engine:
         self.max_steps = max_steps
         self.inline_loops = inline_loops
         self._loops = {}
+        self._promoted = {}
         self._ended = []
         self.stats = {"paths": 0, "steps": 0, "inlined": set(), "opaque": set(), "max_depth_hit": 0}
 
@@ -256,8 +257,27 @@ class Engine:
 
     def cell_initial(self, cell):
         if cell[0] == "M":
+            t = cell[1]
+            if is_const(t) and isinstance(t[2], tuple) and t[2][0] == "s" and len(t[2]) > 3 and t[2][3] is not None:
+                v = self.promoted_value(t[2][2], t[2][3])
+                if v is not None:
+                    return v
             return ("deref", cell[1])
         return ("uninit", cell)
+
+    def promoted_value(self, owner, idx):
+        """pointee of a promoted constant `&<expr>`: summarise the promoted body (straight-line)"""
+        key = (owner, idx)
+        if key in self._promoted:
+            return self._promoted[key]
+        self._promoted[key] = None
+        body = self.facts.bodies.get("%s::promoted[%d]" % (owner, idx))
+        if body is not None:
+            sub = Engine(self.facts, inline=self.inline_pred, max_depth=self.max_depth)
+            ps = [p for p in sub.run(body) if p.outcome == "return"]
+            if len(ps) == 1 and ps[0].ret[0] == "ref":
+                self._promoted[key] = sub.read_loc(ps[0], ps[0].ret[1], ps[0].ret[2])
+        return self._promoted[key]
 
     def read_loc(self, st, cell, path):
         v = st.store.get(cell)
